@@ -1057,6 +1057,7 @@ class Interp:
             f0 = s0.frames[-1]
             mapping = self.havoc(s0, f0, hav, head, inst)
             havocked_locals = set(self._havocked)
+            havocked_derefs = set(self._havocked_derefs)
             cands = self.candidates(entry, s0, f0, mapping, head)
             if self.loop_candidates:
                 cands += self.loop_candidates(self, entry, s0, f0, head, mapping) or []
@@ -1079,6 +1080,7 @@ class Interp:
                 if o.kind == 'back' and o.info == (depth, head):
                     # check candidates at the back edge: head vars := current values
                     self._havocked_set = havocked_locals
+                    self._havocked_deref_set = havocked_derefs
                     cur = self.current_values(o.state, o.state.frames[-1], hav, mapping)
                     for c in valid:
                         cc = T.subst(c, cur)
@@ -1091,6 +1093,7 @@ class Interp:
                 for o in res:
                     if o.kind == 'back' and o.info == (depth, head):
                         self._havocked_set = havocked_locals
+                        self._havocked_deref_set = havocked_derefs
                         cur = self.current_values(o.state, o.state.frames[-1], hav, mapping)
                         self.back_states.append((fn.path, head, o.state, mapping, valid, cur))
                 self.head_states.append((fn.path, head, s0_snapshot, mapping, valid))
@@ -1174,9 +1177,11 @@ class Interp:
                 c.v = hv(c.v, name, lty)
             else:
                 c.v = hv(c.v, name)
+        self._havocked_derefs = []
         for l in derefs:
             v = fr.cells[l].v
             if isinstance(v, Ref):
+                self._havocked_derefs.append(l)
                 tgt = self.load(st, v.cell, v.path)
                 name = fr.fn.locals[l]['name'] or ('_%d' % l)
                 newv = hv(tgt, '*' + name)
@@ -1214,7 +1219,7 @@ class Interp:
             cv(c.v)
         for l in derefs:
             v = fr.cells[l].v
-            if isinstance(v, Ref):
+            if isinstance(v, Ref) and l in self._havocked_deref_set:
                 cv(self.load(st, v.cell, v.path))
         if len(vals) != len(mapping):
             # shape changed: no information
